@@ -28,41 +28,81 @@ func RuleHQuotes(c *core.Ctx) {
 	}
 	n := 0
 	for _, fn := range printerFor(p, d) {
+		type sink struct {
+			at     ssa.Instruction
+			quoted ssa.Value
+		}
+		var sinks []sink
 		core.EachInstr(fn, func(ins ssa.Instruction) {
-			call, ok := ins.(*ssa.Call)
-			if !ok || call.Call.StaticCallee() == nil || call.Call.StaticCallee().String() != "fmt.Fprintf" {
-				return
-			}
-			format, ok := core.ConstString(call.Call.Args[1])
-			if !ok || !strings.Contains(format, `"%s"`) {
-				return
-			}
-			n++
-			key := core.FuncName(fn) + ":text printed between quotes"
-			// which vararg is the quoted one: count verbs before `"%s"`
-			idx := strings.Count(format[:strings.Index(format, `"%s"`)], "%")
-			var quoted ssa.Value
-			if sl, ok := call.Call.Args[2].(*ssa.Slice); ok {
-				if arr, ok := sl.X.(*ssa.Alloc); ok && arr.Referrers() != nil {
-					for _, r := range *arr.Referrers() {
-						if ia, ok := r.(*ssa.IndexAddr); ok {
-							if k, ok := core.ConstInt(ia.Index); ok && int(k) == idx {
-								for _, st := range core.StoresTo(ia) {
-									quoted = core.Strip(st.Val)
+			switch x := ins.(type) {
+			case *ssa.Call:
+				// form 1: fmt.Fprintf(w, `… "%s" …`, args…)
+				if x.Call.StaticCallee() == nil || x.Call.StaticCallee().String() != "fmt.Fprintf" {
+					return
+				}
+				format, ok := core.ConstString(x.Call.Args[1])
+				if !ok || !strings.Contains(format, `"%s"`) {
+					return
+				}
+				idx := strings.Count(format[:strings.Index(format, `"%s"`)], "%")
+				var quoted ssa.Value
+				if sl, ok := x.Call.Args[2].(*ssa.Slice); ok {
+					if arr, ok := sl.X.(*ssa.Alloc); ok && arr.Referrers() != nil {
+						for _, r := range *arr.Referrers() {
+							if ia, ok := r.(*ssa.IndexAddr); ok {
+								if k, ok := core.ConstInt(ia.Index); ok && int(k) == idx {
+									for _, st := range core.StoresTo(ia) {
+										quoted = core.Strip(st.Val)
+									}
 								}
 							}
 						}
 					}
 				}
+				sinks = append(sinks, sink{x, quoted})
+			case *ssa.BinOp:
+				// form 2: … + `"` + v + `"` …  (string concatenation)
+				if x.Op != token.ADD {
+					return
+				}
+				left, ok := x.X.(*ssa.BinOp)
+				if !ok || left.Op != token.ADD {
+					return
+				}
+				lc, ok := core.ConstString(left.Y)
+				if !ok || !strings.HasSuffix(lc, `"`) {
+					return
+				}
+				if _, isConst := x.Y.(*ssa.Const); isConst {
+					return
+				}
+				closed := false
+				if x.Referrers() != nil {
+					for _, r := range *x.Referrers() {
+						if nx, ok := r.(*ssa.BinOp); ok && nx.Op == token.ADD && nx.X == ssa.Value(x) {
+							if rc, ok := core.ConstString(nx.Y); ok && strings.HasPrefix(rc, `"`) {
+								closed = true
+							}
+						}
+					}
+				}
+				if closed {
+					sinks = append(sinks, sink{x, core.Strip(x.Y)})
+				}
 			}
+		})
+		for _, sk := range sinks {
+			call, quoted := sk.at, sk.quoted
+			n++
+			key := core.FuncName(fn) + ":text printed between quotes"
 			if quoted == nil {
 				c.Ob(rule, key, call.Pos(), core.FuncName(fn), core.Undecided, "could not identify the argument printed between quotes")
-				return
+				continue
 			}
 			rep, ok := quoted.(*ssa.Call)
 			if !ok || rep.Call.StaticCallee() == nil || rep.Call.StaticCallee().String() != "strings.ReplaceAll" {
 				c.Ob(rule, key, call.Pos(), core.FuncName(fn), core.Violated, "the text printed between double quotes is not passed through strings.ReplaceAll(…, \"\\\"\", …): a description containing a double quote (importers copy free text from bank statements) yields a journal that does not parse")
-				return
+				continue
 			}
 			old, ok1 := core.ConstString(rep.Call.Args[1])
 			nw, ok2 := core.ConstString(rep.Call.Args[2])
@@ -82,7 +122,7 @@ func RuleHQuotes(c *core.Ctx) {
 			default:
 				c.Ob(rule, key, call.Pos(), core.FuncName(fn), core.Discharged, fmt.Sprintf("Description with %q replaced by %q; otherwise verbatim", old, nw))
 			}
-		})
+		}
 	}
 	if n == 0 {
 		c.Ob(rule, "journal printer:text printed between quotes", d.Pos(), core.FuncName(d), core.Undecided, "no quoted %s found in the journal printer")
